@@ -11,11 +11,17 @@ Definition seteq_str (a b : list string) : bool :=
 Definition ept_opt_eqb (a b : option ept) : bool :=
   match a, b with Some x, Some y => ept_eqb x y | None, None => true | _, _ => false end.
 
+(* the model's verdict on one call of a sequence: authF over the generated table with the trust state at the time of the call *)
+Definition seq_model_call (caller : N) (ep : string) (mt : tmode) : bool :=
+  call_allowed policy (N.eqb caller 0) (trust_of mt caller) ep.
+
 Definition check_case_gen (c : N * c07case) : list (N * N * N) :=
   let '(id, k) := c in
   match k with
   | CAuth m caller ep passed =>
       fail1 id (Bool.eqb (call_allowed policy (N.eqb caller 0) (trust_of m caller) ep) passed)
+  | CAuthSeq m caller ep steps =>
+      fail1 id (seq_forall (fun mt passed => Bool.eqb (seq_model_call caller ep mt) passed) m steps)
   | CMethods l => fail1 id (seteq_str l rpc_methods && nodup_str l)
   | CPolicy l =>
       fail1 id (forallb (fun e => ept_opt_eqb (lookup (fst e) policy) (Some (snd e))) l
